@@ -24,6 +24,9 @@ static const void *vh_get_table(const void *h, unsigned int tag, size_t *len) {
   if (p->only_tag && tag != p->only_tag) { *len = 0; return 0; }
   uint8_t *b = vh_bytes(p->len);
   if (p->len >= 8 && p->hdr_word >= 0) { b[4] = (uint8_t)(p->hdr_word >> 24); b[5] = (uint8_t)(p->hdr_word >> 16); b[6] = (uint8_t)(p->hdr_word >> 8); b[7] = (uint8_t)p->hdr_word; }
+#ifdef VH_PIN_BYTES
+  VH_PIN_BYTES(b);              // straight-line constant stores defined by the harness (counts that size allocations must fold to constants in symex)
+#endif
   ++p->outstanding; ++p->handed_out; p->last = b;
   *len = p->len;
   return b;
